@@ -64,6 +64,7 @@ pub fn dispatch(fs: &[String]) -> String {
         "css" => crate::cssops::css(a(1), a(2)),
         "css_septable" => crate::cssops::septable(),
         "group" => group(a(1)),
+        "writer_trace" => writer_trace(a(1), a(2), a(3)),
         "total" => total(a(1), a(2), a(3), a(4) == "1"),
         "expr_str" => {
             // the real stringifier on the single binding `{{ src }}` (text node): what is printed between the braces
@@ -391,4 +392,36 @@ fn expr_op(src: &str, scopes: &str, prefer_obj: bool) -> String {
         }
     }
     out.join("\t")
+}
+
+
+/// `writer_trace` op: field 1 is the JSON of `group`, field 2 a template path, field 3 the artefact (`obj` | `wx` | `all`);
+/// answers the artefact text and the JavaScript writer operations recorded while it was generated (hook `writer_trace_*`).
+pub fn writer_trace(req: &str, path: &str, what: &str) -> String {
+    let v: Value = serde_json::from_str(req).expect("bad json");
+    let mut g = if v["dev"].as_bool().unwrap_or(false) { tc::TmplGroup::new_dev() } else { tc::TmplGroup::new() };
+    for f in v["files"].as_array().unwrap_or(&vec![]) {
+        let _ = g.add_tmpl(f[0].as_str().unwrap(), f[1].as_str().unwrap());
+    }
+    for f in v["scripts"].as_array().unwrap_or(&vec![]) {
+        g.add_script(f[0].as_str().unwrap(), f[1].as_str().unwrap());
+    }
+    if let Some(x) = v["extra"].as_str() {
+        g.set_extra_runtime_script(x);
+    }
+    tc::verif_hooks::writer_trace_start();
+    let r = match what {
+        "wx" => g.get_wx_gen_object_groups(),
+        "all" => g.get_tmpl_gen_object_groups(),
+        _ => g.get_tmpl_gen_object(path),
+    };
+    let tr = tc::verif_hooks::writer_trace_take();
+    match r {
+        Ok(s) => format!(
+            "ok\t{}\t{}",
+            esc(&s),
+            esc(&tr.iter().map(|(t, p)| format!("{} {}", t, p)).collect::<Vec<_>>().join("\u{1f}"))
+        ),
+        Err(e) => format!("err\t{}", esc(&e.message)),
+    }
 }
